@@ -22,6 +22,7 @@ MatchFacts.lean:
                   into, deletes from, or calls a mutating method / setattr on an object
   matchFresh    : (function, name) for the local names ALL of whose bindings in that function are
                   assignments of a fresh display / comprehension
+  matchIdentityTests: (function, comparison) for every `is` / `is not` comparison in _glom_match / _handle_dict
   matchTargetTests: (function, test) for every `if` test on the class of the target (isinstance / exact type)
   matchUserAttrs: (function, object.attribute) for every attribute read directly off a user object
                   (spec / target / key ...) in _glom_match / _handle_dict
@@ -391,6 +392,17 @@ def extract(ctx):
                 user_attrs.append((fname, n.value.id + '.' + n.attr))
     user_attrs = sorted(set(user_attrs))
 
+    # ---- identity tests in the mode function and its dict helper: every `is` / `is not` comparison, as
+    # source text.  (A shortcut `key is spec_key` would accept a target key that IS the key pattern object -
+    # the class `str` under the key pattern `str` - without judging it.)
+    identity_tests = []
+    for fname, fn in (('_glom_match', gm), ('_handle_dict', hd)):
+        if fn is None:
+            continue
+        for n in ordered([n for n in ast.walk(fn) if isinstance(n, ast.Compare)]):
+            if any(isinstance(o, (ast.Is, ast.IsNot)) for o in n.ops):
+                identity_tests.append((fname, ast.unparse(n)))
+
     # ---- how the class of the TARGET is tested: isinstance (subclass instances of dict / list / tuple / set
     # are matched like the builtin) or exact type (Regex).  (function, test) for every `if` test that looks
     # at the class of `target`, in source order
@@ -578,6 +590,7 @@ def extract(ctx):
         ('matchModuleWrites', 'List (String × String × String)', module_writes),
         ('matchUserAttrs', 'List (String × String)', user_attrs),
         ('matchTargetTests', 'List (String × String)', target_tests),
+        ('matchIdentityTests', 'List (String × String)', identity_tests),
         ('abcClassTable', 'List (String × List String)', abc_rows),
         ('abcNames', 'List String', [a.__name__ for a in abcs]),
         ('combSelfWrites', 'List (String × String × String)', self_writes),
